@@ -31,10 +31,13 @@ def group_defined(ver, m, group):
     return any(m.get(k, nd) != nd for k in T.GROUPS[ver][group])
 
 
-def check_object(P, ver, s, deep=True):
+def check_object(P, ver, s, deep=True, after=None):
+    """after: vectors constructed and serialised in this process just before (kept in the witness)."""
     L = lib()
     P.evaluations += 1
     case = {"ver": ver, "vector": s}
+    if after:
+        case["after"] = list(after)
     ok, o = obs.call(L.CLS[ver], s)
     if not ok:
         P.violation("construct", "C09:v%s:exception:%s" % (ver, obs.exc_name(o)), case, error=repr(o))
@@ -126,8 +129,27 @@ def judge_object(P, ver, o, s, deep, case):
         P.violation("rating-agreement", "C09:v%s:scores-or-ratings-change-after-accessors" % ver, case)
 
 
+def warm(ver, s):
+    """Construct and serialise s the way a judged case does (history for the next case)."""
+    ok, o = obs.call(lib().CLS[ver], s)
+    if ok:
+        for sort in (False, True):
+            for minimal in (False, True):
+                obs.call(o.as_json, sort=sort, minimal=minimal)
+        obs.call(o.severities)
+
+
 def check_case(P, case):
-    check_object(P, case["ver"], case["vector"], deep=True)
+    for s in case.get("after") or []:
+        warm(case["ver"], s)
+    check_object(P, case["ver"], case["vector"], deep=True, after=case.get("after"))
+
+
+def check_minor_twin(P, s):
+    """The same metrics under the other 3.x minor version, right after s in the same process."""
+    other = ("CVSS:3.1/" if s.startswith("CVSS:3.0/") else "CVSS:3.0/") + s[9:]
+    P.stratum("v3:minor-version-twin-right-after")
+    check_object(P, "3", other, deep=True, after=[s])
 
 
 def shard_v3(P, minor, av, mode, seed):
@@ -153,6 +175,8 @@ def shard_v3(P, minor, av, mode, seed):
                 s = V.spell(prefix, mm)
                 k += 1
                 check_object(P, "3", s, deep=(k % 7 == 0))
+                if k % 7 == 0:
+                    check_minor_twin(P, s)
     P.distinct_n += k
     P.sample({"ver": "3", "vector": s}, cap=2)
 
@@ -220,6 +244,8 @@ def shard_random(P, ver, idx, n, seed):
         p, m, s = V.rand_vector(rng, ver, p_opt=rng.choice((0.1, 0.5, 0.9)))
         P.dist(s)
         check_object(P, ver, s, deep=True)
+        if ver == "3" and j % 3 == 0:
+            check_minor_twin(P, s)
 
 
 # Band edges that real vectors reach (established by the exhaustive thorough sweeps on
